@@ -912,7 +912,9 @@ func (c *Ctx) uValues(rule, rel string, floor int) {
 			}
 		}
 		pair("insert undone by delete", dIns, uDel)
-		pair("delete undone by insert", dDel, uIns)
+		// a deleted entry must come back under its key: every key the change deletes is a key the rollback inserts
+		// (the rollback may re-insert or adjust further entries of the same map that the change only adjusted)
+		pair("delete undone by insert", uIns, dDel)
 	}
 	c.R.FloorCheck(rule+" undo stores in "+rel, n, floor)
 }
